@@ -20,7 +20,7 @@ func init() {
 		return engineAWith("C14", tier, []scen.Spec{scen.IDs(), scen.BridgeSpec(), market},
 			func() []explore.Monitor { return []explore.Monitor{&mon.C14{}} },
 			budget(tier, 150*time.Second, 12*time.Minute),
-			func(o *runner.Outcome) { pure.C14Formats(tier, o) },
+			func(o *runner.Outcome) { pure.C14Formats(tier, o); c14GenesisRefs(o) },
 			"format part (Engine B): bounded-exhaustive enumeration of formatted ids and of arbitrary short strings against a hand-written recogniser of the documented grammar; details under coverage.formats")
 	}
 }
